@@ -181,7 +181,7 @@ def on_matmul(ex, a, b, out):
             rec = rec2
             out.ghost['remainder'] = (rec, r)
             rr = r if isinstance(r, z3.ExprRef) else z3.IntVal(r)
-            out.ghost['fro2'] = rec['fro2'] - rec['tail'](rr)
+            out.ghost['fro2'] = _named(ex, rec['fro2'] - rec['tail'](rr))
     # U[:, :r] @ diag(S[:r])
     if 'trunc' in ga and ga['trunc'][1] == 'U' and 'diag_trunc' in gb:
         rec, _, r = ga['trunc']
@@ -189,7 +189,7 @@ def on_matmul(ex, a, b, out):
         if base_record(rec) is base_record(rec2) and same_rank(ex, r, r2):
             out.ghost['US'] = (rec, r)
             rr = r if isinstance(r, z3.ExprRef) else z3.IntVal(r)
-            out.ghost['fro2'] = rec['fro2'] - rec['tail'](rr)
+            out.ghost['fro2'] = _named(ex, rec['fro2'] - rec['tail'](rr))
     # M @ (U S): absorbing the left factor of a truncated SVD into the neighbouring core (rounding sweep)
     if 'US' in gb:
         out.ghost['absorb'] = (a, gb['US'][0], gb['US'][1])
@@ -204,6 +204,14 @@ def on_matmul(ex, a, b, out):
         out.ghost.setdefault('fro2', gb['fro2'])
     if gb.get('orth_rows') and 'fro2' in ga:
         out.ghost.setdefault('fro2', ga['fro2'])
+
+
+def _named(ex, expr):
+    """a fresh ghost real equal to expr: keeps the later (nonlinear) ledger obligations over few symbols"""
+    f = fresh_real('fro2')
+    ex.assume_ghost(f == expr)
+    ex.assume_ghost(f >= 0)        # it is a squared norm (ground instance of tail(j) <= tail(0) = fro2)
+    return f
 
 
 def norm_scalar(ex, t, out):
@@ -240,6 +248,8 @@ def rank_chop_contract(ex, f, args, kwargs):
         e = optable._scalar_of(eps)
     if rec is not None and e is not None:
         ex.assume_ghost(z3.Implies(e > 0, rec['tail'](r) <= e * e))
+        ex.assume_ghost(rec['tail'](r) >= 0)          # ground instances of the quantified tail axioms
+        ex.assume_ghost(rec['tail'](r) <= rec['fro2'])
         ex.assume_ghost(z3.Implies(e <= 0, z3.Or(r == to_int(n), rec['fro2'] == 0)))
         ex.assume_ghost(z3.Implies(rec['fro2'] == 0, r == 1))
         if 'rho' not in rec:
